@@ -134,6 +134,13 @@ def build(cfg: Dict[str, Any], draw: int) -> Built:
     if op == "dropout":
         inp["input"] = randn(g, batch + [cfg["n"]], dt)
         p, tr = cfg["p"], cfg["training"]
+        if cfg.get("via_module"):     # the module, with p changed AFTER construction (a dropout schedule): same function as U.dropout(x, p)
+            import unit_scaling as uu
+
+            m = uu.Dropout(0.5 if p != 0.5 else 0.25)
+            m.p = p
+            m.train(tr)
+            return Built(lambda i: m(i["input"]), lambda i: F.dropout(i["input"], p, tr), inp, ["input"], seed_rng=True)
         return Built(lambda i: U.dropout(i["input"], p, tr, **extra),
                      lambda i: F.dropout(i["input"], p, tr), inp, ["input"], seed_rng=True)
     if op == "matmul":
